@@ -326,7 +326,9 @@ def bias_force(case, value):
     if b["type"] == "linear":
         return -b["k"]
     d = value - b["c"]
-    if periodic(case):
+    # colvar::dist2_lgrad: a homogeneous variable (all coefficients +-1) uses the metric of its FIRST component, and
+    # components are created in the alphabetical order of their keywords (std::map), not in configuration order
+    if all(abs(c["coeff"]) == 1.0 for c in case["comps"]) and min(c["kind"] for c in case["comps"]) == "dihedral":
         d = d - 360.0 * math.floor(d / 360.0 + 0.5)
     return -b["k"] * d
 
